@@ -148,10 +148,10 @@ func prefixScenario(c pcfg) *explore.Scenario {
 // ---- steady state ----
 
 type scfg struct {
-	t       chlab.Timing
-	period  time.Duration
-	both    bool
-	offset  time.Duration
+	t      chlab.Timing
+	period time.Duration
+	both   bool
+	offset time.Duration
 }
 
 func (c scfg) name() string {
@@ -159,12 +159,12 @@ func (c scfg) name() string {
 }
 
 type sresult struct {
-	lab        *chlab.Lab
-	a, b       *chlab.Node
-	sentA      []string
-	sentB      []string
-	lateSends  []string
-	total      time.Duration
+	lab       *chlab.Lab
+	a, b      *chlab.Node
+	sentA     []string
+	sentB     []string
+	lateSends []string
+	total     time.Duration
 }
 
 func steadyScenario(c scfg) *explore.Scenario {
@@ -229,7 +229,9 @@ func steadyScenario(c scfg) *explore.Scenario {
 	sc.Check = func(x *vrt.Exec) []explore.Finding {
 		r := x.Data.(*sresult)
 		var fs []explore.Finding
-		add := func(kind, detail string) { fs = append(fs, explore.Finding{Kind: kind, Site: "Channel", Detail: c.name() + ": " + detail}) }
+		add := func(kind, detail string) {
+			fs = append(fs, explore.Finding{Kind: kind, Site: "Channel", Detail: c.name() + ": " + detail})
+		}
 		if x.HorizonHit {
 			add("step-horizon", "did not finish")
 			return fs
